@@ -16,7 +16,7 @@
      ilog2 x  = (int)(logf(x)/logf(2.0))   resp. (int)(log(x)/log(2.0))     -- the exponent estimate
      pow2 e   = pow(2.0, e)                                                 -- used for x / 2^expon and the table 1/2^i
      pow2s e  = powf(2.0, (float)e) in the single decoder, pow(2, e) in the double decoder
-   Their contracts are stated in IeeeSoftProof.v ([ilog2_ok]: off by at most one from floor(log2 x); [pow2_ok]: the result
+   Their contracts are stated in IeeeSoftProof.v ([ilog2_ok]: between one below and two above floor(log2 x); [pow2_ok]: the result
    represents exactly 2^e) and the exact instances [ilog2_exact], [pow2_exact] are used for execution.
 
    Two places of the code are modelled in two variants selected by a boolean, because the unchanged tree is defective there
